@@ -113,7 +113,7 @@ def _c05(seed, quick):
     m, mb = (25, 40) if quick else (500, 400)
     n, b = (100, 40) if quick else (2000, 400)
     return {
-        "shards": conc_shards("C05", seed, "same-key", 24 if quick else 400, mb, shards=3) + conc_shards("C05", seed, "update-sweep", 120 if quick else 3000, mb, shards=1) + conc_shards("C05", seed, "sweep-other-key", 144 if quick else 3000, mb, shards=1) + conc_shards("C05", seed, "sweep-reput", 60 if quick else 3000, mb, shards=1) + conc_shards("C05", seed, "mixed", m, mb, shards=6) + seq_shards("C05", seed, n, b, shards=4),
+        "shards": conc_shards("C05", seed, "same-key", 24 if quick else 400, mb, shards=3) + conc_shards("C05", seed, "update-sweep", 120 if quick else 3000, mb, shards=1) + conc_shards("C05", seed, "sweep-other-key", 144 if quick else 3000, mb, shards=1) + conc_shards("C05", seed, "sweep-reput", 60 if quick else 3000, mb, shards=1) + conc_shards("C05", seed, "mixed", m, mb, shards=5) + conc_shards("C05", seed, "fanout", 30 if quick else 3000, mb, shards=1) + seq_shards("C05", seed, n, b, shards=4),
         "rule": CONC_RULE + " " + SEQ_RULE,
         "explanation": "At quiescent points (every command acknowledged, two sweeps completed since the clock stopped) the snapshot must satisfy: total = sum of "
                        "charged weights, charged ids = ids of held entries, and after deleting every key total_weight_used() = 0. Directed races: two puts of one "
@@ -128,7 +128,8 @@ def _c05(seed, quick):
 def _c06(seed, quick):
     n, b = (4000, 40) if quick else (150000, 400)
     return {
-        "shards": comp_shards("C06", seed, "c06", n, b, shards=12) + seq_shards("C06", seed, 100 if quick else 2000, b, shards=4),
+        "shards": comp_shards("C06", seed, "c06", n, b, shards=10) + seq_shards("C06", seed, 100 if quick else 2000, b, shards=4)
+                  + conc_shards("C06", seed, "estimate", 150 if quick else 20000, 40 if quick else 400, shards=2),
         "rule": "Component level: a real AdmissionPolicy is filled with 0-9 keys (weights 1..max/3), access frequencies are set directly (0..20 accesses: ties, "
                 "saturated estimates 15/16), then one decision is made for an incoming key with weight in {free-1, free, free+1, max, max+1, 1, huge, random} and "
                 "0..20 prior accesses. distinct = (decision class, #keys, incoming estimate, #victims); non-trivial = not the plain fast path on an empty cache. " + SEQ_RULE,
@@ -267,7 +268,8 @@ def _c08_extra(seed, quick):
 
 def _c07_extra(seed, quick):
     return (conc_shards("C07", seed, "same-key", 24 if quick else 400, 40 if quick else 400, shards=1) + conc_shards("C07", seed, "held-client", 600 if quick else 20000, 40 if quick else 400, shards=1)
-            + conc_shards("C07", seed, "mixed", 40 if quick else 600, 40 if quick else 400, shards=3) + conc_shards("C07", seed, "locked-shard", 24 if quick else 2000, 40 if quick else 400, shards=1))
+            + conc_shards("C07", seed, "mixed", 40 if quick else 600, 40 if quick else 400, shards=3) + conc_shards("C07", seed, "locked-shard", 24 if quick else 2000, 40 if quick else 400, shards=1)
+            + conc_shards("C07", seed, "fanout", 30 if quick else 3000, 40 if quick else 400, shards=1))
 
 
 def _c03_extra(seed, quick):
@@ -284,12 +286,12 @@ def _c09_extra(seed, quick):
 
 def _c10_extra(seed, quick):
     return (conc_shards("C10", seed, "sweep-reput", 60 if quick else 3000, 40 if quick else 400, shards=1) + conc_shards("C10", seed, "update-sweep", 120 if quick else 3000, 40 if quick else 400, shards=1)
-            + conc_shards("C10", seed, "sweep-other-key", 144 if quick else 3000, 40 if quick else 400, shards=2))
+            + conc_shards("C10", seed, "sweep-other-key", 144 if quick else 3000, 40 if quick else 400, shards=2) + conc_shards("C10", seed, "fanout", 30 if quick else 3000, 40 if quick else 400, shards=1))
 
 
 def _c16_extra(seed, quick):
     # counters are bumped from many client threads at once: the identities are re-evaluated at the quiescent point of concurrent runs
-    return conc_shards("C16", seed, "mixed", 25 if quick else 500, 40 if quick else 400, shards=4)
+    return conc_shards("C16", seed, "mixed", 25 if quick else 500, 40 if quick else 400, shards=4) + conc_shards("C16", seed, "fanout", 30 if quick else 3000, 40 if quick else 400, shards=1)
 
 
 def _c17_extra(seed, quick):
